@@ -48,8 +48,8 @@ def work(wt):
             out.append("%s %s: no patch" % (wt, mid))
             continue
         m = muts.get(mid, {})
-        slug = "m%s-%s-%s" % (
-            mid, os.path.basename(m.get("file", "x")).replace(".py", ""),
+        slug = "%s%s-%s-%s" % (
+            os.environ.get("MPREFIX", "m"), mid, os.path.basename(m.get("file", "x")).replace(".py", ""),
             re.sub(r"[^a-z0-9]+", "-", m.get("func", "x").lower()).strip("-"))
         needs = (e.get("reason") or "")[:300]
         r = subprocess.run([os.path.join(HERE, "tools", "confirm_seeded.py"),
